@@ -7,6 +7,7 @@ from .interp import Interp, State, Unmodelled
 from .lin import Lin, eq, f_and, f_not, f_or, flit, ge, gt, le, lin, lt, ne, show_formula, show_pc
 from .values import *
 from .wsumm import BUF, Summary, discover
+from .spec import MAX_BYTES
 
 
 class Trip:
@@ -54,6 +55,12 @@ def acceptance(res, T, label, rule="acceptance"):
         errs = [(s, v) for s, v in live if isinstance(v, StructV) and v.variant == "Err"]
         oks = [(s, v) for s, v in live if isinstance(v, StructV) and v.variant == "Ok"]
         n += 1
+        # first for the sizes the 16-bit length field can express (never covered by the recorded D11 finding) ...
+        rep = [(s, v) for s, v in errs if solver.feasible(s.pc, [le(wc.n, MAX_BYTES)])]
+        res.compare(not rep and bool(oks), rule, T.parse_def,
+                    f"{label}: the parser accepts what the builder wrote whenever the total size is at most {MAX_BYTES} bytes",
+                    detail="; ".join(f"{v.fields['0']!r} under {show_pc(s.pc[len(s2.pc):])[:200]}" for s, v in rep)[:600], pc=s2.pc, entry=T.B.wr)
+        # ... then for every accepted configuration
         res.compare(not errs and bool(oks), rule, T.parse_def,
                     f"{label}: the parser accepts what the builder wrote (every rejecting path is refuted)",
                     detail="; ".join(f"{v.fields['0']!r} under {show_pc(s.pc[len(s2.pc):])[:200]}" for s, v in errs)[:600], pc=s2.pc, entry=T.B.wr)
